@@ -401,6 +401,7 @@ def modelStep (s : DState) (cmd : String) (t lhs rhs : Array String) (line : Str
         let (h, b') := b.appendSample s.heap v
         if implOutcome rhs == "ok" then { s with heap := h, bufs := s.bufs.set! vid.toNat (some b') }
         else s.diverge "asample" "ok" (implOutcome rhs)
+    else if cmd == "gc" then s  -- a garbage collection changes nothing the model can see
     else if cmd == "set" then
       let vid := int! (lhs[1]?.getD "0"); let i := int! (lhs[2]?.getD "0"); let v := int! (lhs[3]?.getD "0")
       match getBuf s vid with
